@@ -101,8 +101,8 @@ class System:
                 raise ValueError(n)
         except TypeError:
             return "TypeError"
-        except ValueError as e:
-            return "ValueError:%s" % str(e)[:60]
+        except ValueError:
+            return "ValueError"
         return "ok"
 
     def close(self):
